@@ -30,7 +30,7 @@ offset of the section, C08's Model), started with the unit's base address, yield
 ranges — for location lists the (range, expression bytes) pairs — the list as built means
 (`Spec.WLists.meaning`), in order, with no error. Nothing else is assumed about the lists. -/
 theorem list_roundtrip (m : Mode) (u : UnitIn) (p : Pos) (priorR priorL : Bytes) (out : UnitOut)
-    (hv : u.cfg.version = 5) (hs : ValidSize u.cfg.addrSize) (he : ∀ o ∈ u.eoff, o < 2 ^ 64)
+    (hv : u.cfg.version = 5) (he : ∀ o ∈ u.eoff, o < 2 ^ 64)
     (hmr : ∀ l ∈ u.rng, ∀ x ∈ l, Machine .rng u.cfg (unitEOff u) p.uoff x)
     (hml : ∀ l ∈ u.loc, ∀ x ∈ l, Machine .loc u.cfg (unitEOff u) p.uoff x)
     (hpr : p.rngStart = priorR.length) (hpl : p.locStart = priorL.length)
@@ -41,7 +41,7 @@ theorem list_roundtrip (m : Mode) (u : UnitIn) (p : Pos) (priorR priorL : Bytes)
     (∀ (j : Nat) (hj : j < u.loc.length), ∃ off evs, out.locOffs[j]? = some off ∧
       cookedAt .loc u.cfg false out.debugLoc (priorL ++ out.debugLoclists) off (unitBase u.lowPc) [] 0 = .ok evs ∧
       evs.map denot = meaning u.cfg.addrSize (dataBytes .loc u.cfg (unitEOff u) p.uoff) (unitBase u.lowPc) u.loc[j]) := by
-  obtain ⟨_, r, l, h1, h2, _, rfl⟩ := writeUnitAt_ok hw
+  obtain ⟨hs, _, r, l, h1, h2, _, rfl⟩ := writeUnitAt_ok hw
   have heo := unitEOff_u64 u he
   have hleg : ¬ u.cfg.version ≤ 4 := by omega
   rw [hpr] at h1
@@ -77,7 +77,7 @@ theorem list_roundtrip_prev5_partial (m : Mode) (u : UnitIn) (p : Pos) (priorR p
     (∀ (j : Nat) (hj : j < u.loc.length), ∃ off evs, out.locOffs[j]? = some off ∧
       cookedAt .loc u.cfg false (priorL ++ out.debugLoc) out.debugLoclists off (unitBase u.lowPc) [] 0 = .ok evs ∧
       evs.map denot = meaning u.cfg.addrSize (dataBytes .loc u.cfg (unitEOff u) p.uoff) (unitBase u.lowPc) u.loc[j]) := by
-  obtain ⟨_, r, l, h1, h2, _, rfl⟩ := writeUnitAt_ok hw
+  obtain ⟨_, _, r, l, h1, h2, _, rfl⟩ := writeUnitAt_ok hw
   have heo := unitEOff_u64 u he
   have hbase := haveBase_false_base u.lowPc
   rw [hpr] at h1
@@ -398,6 +398,104 @@ theorem v5_never_rejects (k : Kind) (c : Cfg) (eo : EOff) (uoff : Nat) (x : WEnt
   simp only [ListErr, not_or] at key
   exact key
 
+/-- **Symbolic addresses are never accepted by the default writer** (`Writer::write_address` of an
+`Address::Symbol` is `Err(InvalidAddress)`): every entry either writer accepts has constant
+addresses only — so the value `Spec.WLists.addrVal` assigns to a symbol is never used, and
+collisions of relocated symbols with the `(0,0)` terminator or the all-ones marker can only arise
+with a relocating `Writer`, which is outside the Model. -/
+theorem accepted_no_symbol (m : Mode) (k : Kind) (c : Cfg) (eo : EOff) (uoff : Nat) (hb : Bool)
+    (x : WEntry) :
+    (∀ r, writeEntryBare m k c eo uoff hb x = .ok r → NoSymbol x) ∧
+    (∀ bs, writeEntryCoded k c eo uoff x = .ok bs → NoSymbol x) := by
+  constructor
+  · intro r h
+    cases x with
+    | baseAddress a =>
+      simp only [writeEntryBare] at h
+      obtain ⟨_, _, h1⟩ := bind_ok_inv h
+      obtain ⟨_, _, h2⟩ := bind_ok_inv h1
+      obtain ⟨_, h3, _⟩ := bind_ok_inv h2
+      obtain ⟨v, hv, _⟩ := writeAddress_ok h3
+      exact ⟨v, hv⟩
+    | offsetPair b e x => trivial
+    | startEnd b e x =>
+      simp only [writeEntryBare] at h
+      split at h
+      · cases h
+      · split at h
+        · cases h
+        · obtain ⟨_, h0, _⟩ := bind_ok_inv h
+          simp only [writeAddrPair] at h0
+          obtain ⟨_, h2, h3⟩ := bind_ok_inv h0
+          obtain ⟨_, h4, _⟩ := bind_ok_inv h3
+          obtain ⟨vb, hvb, _⟩ := writeAddress_ok h2
+          obtain ⟨ve, hve, _⟩ := writeAddress_ok h4
+          exact ⟨⟨vb, hvb⟩, ⟨ve, hve⟩⟩
+    | startLength b len x =>
+      simp only [writeEntryBare] at h
+      obtain ⟨e, _, h01⟩ := bind_ok_inv h
+      split at h01
+      · cases h01
+      · split at h01
+        · cases h01
+        · obtain ⟨_, h0, _⟩ := bind_ok_inv h01
+          simp only [writeAddrPair] at h0
+          obtain ⟨_, h2, _⟩ := bind_ok_inv h0
+          obtain ⟨vb, hvb, _⟩ := writeAddress_ok h2
+          exact ⟨vb, hvb⟩
+    | defaultLocation x => trivial
+  · intro bs h
+    cases x with
+    | baseAddress a =>
+      simp only [writeEntryCoded] at h
+      obtain ⟨_, h3, _⟩ := bind_ok_inv h
+      obtain ⟨v, hv, _⟩ := writeAddress_ok h3
+      exact ⟨v, hv⟩
+    | offsetPair b e x => trivial
+    | startEnd b e x =>
+      simp only [writeEntryCoded, writeAddrPair] at h
+      obtain ⟨_, h0, _⟩ := bind_ok_inv h
+      obtain ⟨_, h2, h3⟩ := bind_ok_inv h0
+      obtain ⟨_, h4, _⟩ := bind_ok_inv h3
+      obtain ⟨vb, hvb, _⟩ := writeAddress_ok h2
+      obtain ⟨ve, hve, _⟩ := writeAddress_ok h4
+      exact ⟨⟨vb, hvb⟩, ⟨ve, hve⟩⟩
+    | startLength b len x =>
+      simp only [writeEntryCoded] at h
+      obtain ⟨_, h2, _⟩ := bind_ok_inv h
+      obtain ⟨vb, hvb, _⟩ := writeAddress_ok h2
+      exact ⟨vb, hvb⟩
+    | defaultLocation x => trivial
+
+/-- **Emitted bytes, DWARF 2–4** — PARTIAL (needs `¬ OnesBegin`, see `list_roundtrip_prev5_partial`):
+the table is the concatenation, without any header, of the Spec encoding of every distinct list in
+the bare format: each entry as the address-or-offset pair / base-address selection `toBare` names
+(location entries followed by the 2-byte counted expression), then the `(0, 0)` pair; each list at
+the offset handed back for it. -/
+theorem emitted_prev5_partial (m : Mode) (k : Kind) (c : Cfg) (eo : EOff) (uoff : Nat) (ub : Bool)
+    (start : Nat) (tbl : List WList) (bytes : Bytes) (offs : List Nat)
+    (hv : 2 ≤ c.version ∧ c.version ≤ 4) (he : U64EOff eo)
+    (hm : ∀ l ∈ tbl, ∀ x ∈ l, Machine k c eo uoff x) (hno : ∀ l ∈ tbl, ∀ x ∈ l, ¬ OnesBegin c x)
+    (hw : writeTable m k c eo uoff ub start tbl = .ok (bytes, offs)) :
+    offs.length = tbl.length ∧
+    ∀ (i : Nat) (hi : i < tbl.length), ∃ pre post,
+      bytes = pre ++ encodeList k c .bare (tbl[i].map (toBare (dataBytes k c eo uoff))) ++ post ∧
+      offs[i]? = some (start + pre.length) := by
+  by_cases hne : tbl.isEmpty = true
+  · have : tbl = [] := by simpa using hne
+    subst this
+    simp only [writeTable, List.isEmpty_nil, if_true, Out.ok.injEq, Prod.mk.injEq] at hw
+    obtain ⟨_, rfl⟩ := hw
+    exact ⟨rfl, fun i hi => absurd hi (by simp)⟩
+  · simp only [writeTable, hne, Bool.false_eq_true, if_false, hv, and_self, if_true] at hw
+    obtain ⟨hl, hat⟩ := writeLists_at _ tbl _ bytes offs hw
+    refine ⟨hl, ?_⟩
+    intro i hi
+    obtain ⟨pre, bsi, post, e1, e2, e3⟩ := hat i hi
+    obtain ⟨_, e4, _, _⟩ := writeEntriesBare_enc he hv.2 tbl[i] ub bsi (if ub = false then 0 else 0) e2
+      (hm tbl[i] (List.getElem_mem hi)) (hno tbl[i] (List.getElem_mem hi)) (by intro _; simp)
+    exact ⟨pre, post, by rw [e1, e4], e3⟩
+
 /-! ## "equal lists share one identifier and one emitted copy" -/
 
 /-- **De-duplication.** For any sequence of `add` calls on a fresh table: two calls return the same
@@ -573,14 +671,25 @@ theorem start_length_no_overflow (m : Mode) (k : Kind) (c : Cfg) (eo : EOff) (uo
     intro h0; subst h0
     simp [writeEntryBare, endOf, hbu] at h
 
-/-- **The writer returns normally**: for the address sizes 1..8 (any mode), and for any address
-size without overflow checks, writing a unit's lists yields a value or an error — the only panic in
-the modelled code is the all-ones marker computation `!0 >> (64 - address_size * 8)` of a
-`BaseAddress` entry for an address size outside 1..8 with overflow checks on. -/
-theorem writer_total (m : Mode) (u : UnitIn) (p : Pos)
-    (h : (1 ≤ u.cfg.addrSize ∧ u.cfg.addrSize ≤ 8) ∨ m = .release) :
-    (writeUnitAt m u p).Normal :=
-  writeUnitAt_normal m u p (marker_normal m _ h)
+/-- **The writer returns normally**: writing a unit's lists yields a value or an error, for every
+unit, position and arithmetic mode. (The only panic in the modelled code — the all-ones marker
+computation `!0 >> (64 - address_size * 8)` for an address size outside 1..8 with overflow checks
+on — is unreachable since `Unit::write` rejects such sizes first.) -/
+theorem writer_total (m : Mode) (u : UnitIn) (p : Pos) : (writeUnitAt m u p).Normal :=
+  writeUnitAt_normal m u p
+
+/-- **Unsupported address sizes and versions are rejected before anything is written** -/
+theorem unit_config_rejections (m : Mode) (u : UnitIn) (p : Pos) :
+    (¬ ValidSize u.cfg.addrSize → writeUnitAt m u p = .err .wUnsupportedWordSize) ∧
+    (ValidSize u.cfg.addrSize → ¬ (2 ≤ u.cfg.version ∧ u.cfg.version ≤ 5) →
+      writeUnitAt m u p = .err .wUnsupportedVersion) := by
+  constructor
+  · intro h
+    unfold ValidSize at h
+    simp [writeUnitAt, h]
+  · intro h hv
+    unfold ValidSize at h
+    simp [writeUnitAt, h, hv]
 
 /-! ## the recorded finding's witness, and non-vacuity of the hypotheses -/
 
@@ -641,7 +750,7 @@ private def uGood : UnitIn :=
     loc := [[.offsetPair 0xffff_ffff_ffff_ffff 8 [.call 0, .convert (some 1), .callRef 1, .addr (.const 77)],
              .defaultLocation [.raw [0x50]], .startLength (.const 0x10) 4 [.constu 0x1234]]] }
 
-example : ValidSize uGood.cfg.addrSize ∧ uGood.cfg.version = 5 ∧ (∀ o ∈ uGood.eoff, o < 2 ^ 64) ∧
+example : uGood.cfg.version = 5 ∧ (∀ o ∈ uGood.eoff, o < 2 ^ 64) ∧
     (∀ l ∈ uGood.rng, ∀ x ∈ l, Machine .rng uGood.cfg (unitEOff uGood) 0 x) ∧
     (∀ l ∈ uGood.loc, ∀ x ∈ l, Machine .loc uGood.cfg (unitEOff uGood) 0 x) ∧
     (writeUnit .debug uGood).isOk = true := by decide
@@ -681,8 +790,10 @@ example : writeExprLen cfg4 65535 = .ok [0xff, 0xff] ∧ writeExprLen cfg4 65536
 example : OnesBegin cfg4 (.offsetPair 0xffff_ffff 20 []) ∧
     (writeEntryBare .debug .rng cfg4 (fun _ => none) 0 true (.offsetPair 0xffff_ffff 20 [])).isOk = true := by
   decide
--- the only panic: address size 0 with overflow checks
-example : writeUnit .debug { uBad with cfg := { cfg4 with addrSize := 0 }, rng := [[.baseAddress (.const 1)]] } =
+-- the only panic of the table writers (address size 0 with overflow checks) is cut off by `Unit::write`
+example : writeEntryBare .debug .rng { cfg4 with addrSize := 0 } (fun _ => none) 0 false (.baseAddress (.const 1)) =
     .panic "attempt to shift right with overflow" := by decide
+example : writeUnit .debug { uBad with cfg := { cfg4 with addrSize := 0 }, rng := [[.baseAddress (.const 1)]] } =
+    .err .wUnsupportedWordSize := by decide
 
 end Gimli.Props.C16
